@@ -91,7 +91,17 @@ def gen_basex(em):
             it = Interp(path, stubs={'local.get_basex_correction': correction_stub})
             M, Mc = it.sym_mx('M', n, n), it.sym_mx('Mc', n, n)
             f = it.funcs['get_bs_cached']
-            ifn = it.find_if('get_bs_cached', "direction == 'forward' and _trf_prm == [reg, correction, dr]")
+            # the transform-matrix chain: the last statement before `return A`, together with the plain
+            # assignments that immediately precede it (e.g. a local holding the cache parameters)
+            body = f.body
+            if not (isinstance(body[-1], ast.Return) and ast.unparse(body[-1]) == 'return A' and isinstance(body[-2], ast.If)):
+                raise Unsupported('basex.get_bs_cached does not end with an if-chain followed by `return A`')
+            ifn = body[-2]
+            pre = []
+            k = len(body) - 3
+            while k >= 0 and isinstance(body[k], ast.Assign) and not any(isinstance(x, ast.Call) for x in ast.walk(body[k])):
+                pre.insert(0, body[k])
+                k -= 1
             gl = set()
             for node in ast.walk(f):
                 if isinstance(node, ast.Global):
@@ -102,13 +112,9 @@ def gen_basex(em):
             dr = 1.0 if drname == 'dr1' else it.sym_sc('dr', notone=True)
             fr = dict(env=dict(reg=0.0, correction=corr, dr=dr, direction=direction, verbose=False, n=n, sigma=1.0),
                       globals_decl=gl, closure=None)
+            for st in pre:
+                it.stmt(st, fr)
             it.stmt(ifn, fr)
-            # the statement after the chain must be `return A`
-            body = f.body
-            if not (isinstance(body[-1], ast.Return) and ast.unparse(body[-1]) == 'return A'):
-                raise Unsupported('basex.get_bs_cached does not end with `return A`')
-            if body[-2] is not ifn:
-                raise Unsupported('basex.get_bs_cached: the transform-matrix chain is not the last statement before return')
             em.add('basex_matrix_%s_%s%s' % (direction, 'corr_' if corr else '', drname), it, fr['env']['A'],
                    'abel/basex.py get_bs_cached(..., reg=0.0, correction=%r, dr=%s, direction=%r): '
                    'the recalculation branch (fresh caches)%s' % (corr, '1.0' if drname == 'dr1' else 'dr', direction,
